@@ -112,6 +112,23 @@ func C01(o *core.Options) int {
 		r.Count("worlds_with_three_tuples", 1)
 		run(env, w)
 	})
+	// nested set operators over one object (ref.FlatFamily): every tuple subset of size <= 4
+	fu := ref.FlatUniverse()
+	of := opts
+	of.K, of.U = 4, fu
+	nodes = e2.RequestNodes(fu)
+	flat := e2.ValidModels(ref.FlatFamily())
+	if o.Thorough() {
+		of.K = 6
+	}
+	r.Set("flat_family_models", len(flat))
+	e2.Sweep(r, flat, of, func(env *e2.Env, w *ref.World) {
+		if len(w.Tuples) == 0 {
+			return
+		}
+		r.Count("worlds_flat_family", 1)
+		run(env, w)
+	})
 	nodes = save
 	// leftover tuples: one tuple invalid for M, plus |T|<=1
 	lo := opts
